@@ -135,6 +135,18 @@ def gen_build_history(rng, latlon, mag, sqlite_features=True, queries=("nodes", 
         ops.append({"op": "commit"})
     if sqlite_features and rng.random() < 0.15:
         ops.append({"op": "connect_parallelroads", "dist": rng.choice([0.5, 2.0, 10.0])})
+    if sqlite_features and rng.random() < 0.12:
+        # a rejected call: a node declared again, at another place, without ignore_doubles (SqliteMap raises)
+        i = rng.randrange(n)
+        q = pts[(i + 1) % n]
+        op = {"op": "add_node", "label": labels[i], "loc": [q[0], q[1]] if (q[0], q[1]) != tuple(pts[i]) else [q[0] + (1e-4 if latlon else 0.25), q[1]],
+              "expect_refused": True}
+        if rng.random() < 0.3:
+            op["no_commit"] = True
+        if rng.random() < 0.2:
+            op["no_index"] = True
+        first_edge = next((k for k, o in enumerate(ops) if o["op"] in ("add_edge", "add_edges")), len(ops))
+        ops.insert(rng.randint(min(first_edge, len(ops)), len(ops)), op)
     if rng.random() < 0.15:
         # a rejected call: a road to a node that does not exist yet (the in-memory map refuses it with an exception and
         # must be left as it was); the node is declared later and gets roads of its own, but never this one
@@ -343,6 +355,17 @@ class StoreSession:
         if k == "add_node":
             l, p = op["label"], tuple(op["loc"])
             exists = l in ref.view()["nodes"]
+            if exists and op.get("expect_refused"):
+                # a node declared a second time (elsewhere) without ignore_doubles: the SQLite map refuses it with an
+                # exception; nodes, index rows and pending writes must be as before
+                if sq is not None:
+                    try:
+                        sq.add_node(l, p, no_index=bool(op.get("no_index")), no_commit=bool(op.get("no_commit")))
+                    except Exception:
+                        self.bump("fired_rejected_call")
+                    else:
+                        self.bump("dup_node_accepted_without_exception")
+                return
             if sq is not None:
                 if exists and not op.get("ignore_doubles"):
                     return
